@@ -245,6 +245,14 @@ def run_case(ctx, case):
                     ctx.cls("escape (C03)")
                 elif key not in r[1]:
                     ctx.finding(f"C06/{mname}/error-does-not-name-the-key/{where}", {"path": path, "key": key, "message": short(r[1], 300)})
+    # there is no lenient mode that accepts leftovers: parse_known_args from user code is refused
+    try:
+        P.build(dict(recipe, env=True)).parse_known_args(["--zq7=1"])
+        ctx.finding("C06/parse_known_args-available-to-user-code", {})
+    except NotImplementedError:
+        ctx.cls("parse_known_args:NotImplementedError")
+    except Exception as ex:  # noqa
+        ctx.cls("parse_known_args:" + type(ex).__name__)
     # required subcommand: removing the choice must fail
     if sub:
         bad = copy.deepcopy(obj)
@@ -301,8 +309,4 @@ def self_test():
     ps = list(positions(sh, v, ["x"]))
     assert [p[0] for p in ps] == [["x", 0], ["x", 0, "fb"], ["x", 0, "fb", "init_args"], ["x", 0, "fb", "init_args", "inner"], ["x", 0, "fb", "init_args", "inner", "init_args"]], ps
     assert ps[0][2] == ["fa"] and ps[2][2] == ["inner"]
-    try:
-        ArgumentParser().parse_known_args([])
-        raise AssertionError("parse_known_args from user code must raise NotImplementedError")
-    except NotImplementedError:
-        pass
+    assert get_at({"a": [{"b": 1}]}, ["a", 0, "b"]) == 1 and mutate({"a": {}}, ["a"], lambda m: m.__setitem__("z", 1)) == {"a": {"z": 1}}
